@@ -411,12 +411,13 @@ def check_route_immutable(rep, route):
         effs = [e for e in effects.effects_in(m.node) if e.root == 'self']
         if effs and name in ctor_only:
             rep.ok('R12.b', fkey(m), 'writes self, but is a private part of the constructor: every mention of %s in the analysed tree is a '
-                                     'self.%s(...) call from __init__ (or from another such part)' % (name, name), route, m.node)
+                                     'self.%s(...) call from __init__ (or from another such part)' % (name, name), m.mod, m.node)
             continue
         rep.check('R12.b', fkey(m), not effs, 'does not write self' if not effs else
                   'BoundRoute.%s writes the shared route object after construction: %s' % (name, [short(e.node) for e in effs]),
-                  route, effs[0].node if effs else m.node)
-    route_roles = set(k for k, v in ROLE_TABLE.items() if ('clastic.route', 'BoundRoute') in v)
+                  m.mod, effs[0].node if effs else m.node)
+    from .noninterf import role_classes
+    route_roles = set(k for k in ROLE_TABLE if br in role_classes(repo, k))       # (the class by definition, wherever it lives)
     n = 0
     for m in repo.all_internal_modules():
         for fi2 in m.functions.values():
